@@ -223,12 +223,18 @@ func runC02(c *Ctx) {
 	})
 	switch {
 	case w.Srv != nil:
-		w.Srv.RegisterResources(&mcp.Resource{Name: "multi", URI: "res://multi"}, func(ctx context.Context, req *mcp.ReadResourceRequest) ([]mcp.ResourceContents, error) { return resContents, nil })
+		w.Srv.RegisterResources(&mcp.Resource{Name: "multi", URI: "res://multi"}, func(ctx context.Context, req *mcp.ReadResourceRequest) ([]mcp.ResourceContents, error) {
+			return resContents, nil
+		})
 	case w.SSE != nil:
-		w.SSE.RegisterResources(&mcp.Resource{Name: "multi", URI: "res://multi"}, func(ctx context.Context, req *mcp.ReadResourceRequest) ([]mcp.ResourceContents, error) { return resContents, nil })
+		w.SSE.RegisterResources(&mcp.Resource{Name: "multi", URI: "res://multi"}, func(ctx context.Context, req *mcp.ReadResourceRequest) ([]mcp.ResourceContents, error) {
+			return resContents, nil
+		})
 	default:
 		w.addStdioSetup(func(srv *mcp.StdioServer) {
-			srv.RegisterResources(&mcp.Resource{Name: "multi", URI: "res://multi"}, func(ctx context.Context, req *mcp.ReadResourceRequest) ([]mcp.ResourceContents, error) { return resContents, nil })
+			srv.RegisterResources(&mcp.Resource{Name: "multi", URI: "res://multi"}, func(ctx context.Context, req *mcp.ReadResourceRequest) ([]mcp.ResourceContents, error) {
+				return resContents, nil
+			})
 		})
 	}
 	var planned []string
